@@ -107,8 +107,11 @@ def one_case(run, specs, tol, transform=None):
                 continue
             for m in range(specs[i].nseg):
                 for k in range(specs[j].nseg):
-                    bi = shells[i].norm_cont[m, 0] * np.sum(np.abs(shells[i].coeffs[:, m]) * shells[i].norm_prim_cart[0])
-                    bj = shells[j].norm_cont[k, 0] * np.sum(np.abs(shells[j].coeffs[:, k]) * shells[j].norm_prim_cart[0])
+                    # the function is  sum_k (norm_cont * c_k) * (unit-normalised primitive k): its "normalised contraction
+                    # coefficients" are norm_cont * c_k (theorem screen_conservative bounds |S| by tol x the two sums of their
+                    # absolute values); the primitive norms belong to the unit-normalised primitives, not to the coefficients
+                    bi = shells[i].norm_cont[m, 0] * np.sum(np.abs(shells[i].coeffs[:, m]))
+                    bj = shells[j].norm_cont[k, 0] * np.sum(np.abs(shells[j].coeffs[:, k]))
                     val = abs(full[offs[i] + m, offs[j] + k])
                     run.count("removed s-type elements")
                     if not val < tol * bi * bj:
